@@ -241,6 +241,10 @@ class K2Case:
     def __init__(self, name: str, main: Pgm, defs=(), act_stdin: Optional[str] = None):
         self.name, self.main, self.defs, self.act_stdin = name, main, list(defs), act_stdin
 
+    def own_text(self) -> str:
+        """the text without the standard definitions of L, P, E"""
+        return self.text().replace(sp.DEF_L, '')
+
     def text(self) -> str:
         lines = ['[setup]', sp.DEF_L, sp.DEF_P, sp.DEF_E]
         for name, p in self.defs:
@@ -400,10 +404,10 @@ def _k2_case(name: str) -> K2Case:
 
 
 def _pre_k2(s0, s1, s2, s3) -> bool:
-    used = _k2_case(ob.case()['scenario']).text()
+    used = _k2_case(ob.case()['scenario']).own_text()
     for i, s in enumerate((s0, s1, s2, s3)):
         if ('@[S%d]@' % i) not in used and ('@[L]@' not in used or i > 1) and s != '':
-            return False  # a symbol the text does not reference: no need to vary it
+            return False  # a symbol the scenario does not reference (directly or through L): no need to vary it
     return _short(s0, s1, s2, s3)
 
 
@@ -498,6 +502,7 @@ OUTS = (OUT0, 'other OUT\n', '')
 ERRS = (ERR0, '')
 CODES_QUICK = (0, 1, 255)
 CODES_THOROUGH = (0, 1, 2, 126, 127, 128, 255)
+PROBE_OUT, PROBE_ERR, PROBE_CODE = 'probe OUT\n', 'probe err\n', 7
 SOURCE_LINES = ('line one $x "q"', "  line 'two'  ", '', '#! four')
 
 HDS_FILES = (('f.txt', sp.FILE_TXT, 0o644), ('exe', '#!/bin/sh\n', 0o755), ('src.py', 'the source file\n', 0o644))
@@ -513,9 +518,19 @@ def _here(text: str) -> str:
 
 class K3Case:
     def __init__(self, name: str, actor: str = 'command', act=None, defs=(), setup_stdin: Optional[str] = None,
-                 cd: bool = False, runs=(), outcome: bool = False, interp: Pgm = INTERP):
+                 cd: bool = False, runs=(), outcome: bool = False, interp: Pgm = INTERP, probes=()):
         self.name, self.actor, self.act, self.defs = name, actor, act, list(defs)
         self.setup_stdin, self.cd, self.runs, self.outcome, self.interp = setup_stdin, cd, list(runs), outcome, interp
+        self.probes = list(probes)  # [assert]: (kind in {'exit-code', 'stdout', 'stderr'}, Pgm):  `kind -from PROGRAM MATCHER`
+
+    def _probe_lines(self, probe) -> str:
+        kind, p = probe
+        head = '%s -from %s\n        ' % (kind, p.text())
+        if kind == 'exit-code':
+            return head + '== %d' % PROBE_CODE
+        if kind == 'stdout':
+            return head + 'equals ' + _here(sp.transformed(sp.denote(p, dict(self.defs)), PROBE_OUT))
+        return head + 'equals ' + _here(PROBE_ERR)
 
     # runs: (phase, instruction form in {'run', '%', '$'}, Pgm, ignore-exit-code)
 
@@ -534,7 +549,7 @@ class K3Case:
         lines = []
         if self.actor != 'command':
             lines += ['[conf]', 'actor = ' + self.actor + ('' if self.actor == 'null' else ' ' + self.interp.text())]
-        lines += ['[setup]', sp.DEF_L, sp.DEF_P, sp.DEF_E]
+        lines += ['[setup]', sp.DEF_L, sp.DEF_P, sp.DEF_E, sp.DEF_G]
         if self.cd:
             lines += ['dir sub', 'cd sub']
         for name, p in self.defs:
@@ -563,6 +578,7 @@ class K3Case:
             d = self.act_den()
             out = OUT0 if d is None else sp.transformed(d, OUT0)
             lines += ['stdout equals ' + _here(out), 'stderr equals ' + _here(ERR0)]
+        lines += [self._probe_lines(p) for p in self.probes]
         lines.append('[cleanup]')
         lines += [self._run_line(r) for r in self.runs if r[0] == 'cleanup']
         return '\n'.join(lines) + '\n'
@@ -582,7 +598,7 @@ class K3Case:
         if self.setup_stdin is not None:
             extra_stdin = [sp.T[self.setup_stdin][1]]
             if sp.T[self.setup_stdin][2] is not None:
-                extra_gens = [sp.T[self.setup_stdin][2][1]]
+                extra_gens = [sp.T[self.setup_stdin][2]]
         if self.actor == 'command':
             out.extend(sp.procs_of(self.act_den(), 'atc', env, extra_stdin, extra_gens, cwd, setup_stdin_first))
         elif self.actor == 'file':
@@ -599,6 +615,8 @@ class K3Case:
             pass  # null actor: no process
         of_runs('before-assert')
         of_runs('assert')
+        for kind, p in self.probes:
+            out.extend(sp.procs_of(sp.denote(p, defs), 'probe', env, cwd=cwd))
         of_runs('cleanup')
         return out
 
@@ -647,6 +665,8 @@ def _behaviour(roles: List[str], atc_child: L.Child, run_children=None):
             return L.Child(out=sp.GEN_OUT)
         if role == 'atc':
             return atc_child
+        if role == 'probe':
+            return L.Child(out=PROBE_OUT, err=PROBE_ERR, code=PROBE_CODE)
         return run_children.get(role, L.Child())
 
     return beh
@@ -710,6 +730,11 @@ def _k3_cases(tier: str) -> List[K3Case]:
                   (ph, '%', rp('r2', ['sym1', 'list']), False),
                   (ph, '$', Pgm('shell', 'r3 "x  y" @[S0]@', head_value=[sp.C('r3 "x  y" '), sp.S(0)]), False)],
             cd=(ph in ('assert', 'cleanup')))
+    add('from-program', act=sys_(['plain']), cd=True,
+        defs=[('Q', Pgm('sys', 'q', ['sym'], stdin='string')), ('QT', Pgm('ref', 'Q', ['sym1'], trans='upper'))],
+        probes=[('exit-code', Pgm('ref', 'Q', ['spaces'])), ('stdout', Pgm('ref', 'QT', ['plain2'], trans='replace')),
+                ('stderr', Pgm('sys', 'q2', ['sym', 'list'], stdin='here-doc'))])
+    add('stdin/generator-with-stdin', act=sys_(['sym'], stdin='program-w-stdin'), setup_stdin='program')
     add('run/ref-all-phases', act=Pgm('ref', 'P1', ['plain']),
         defs=[('P1', Pgm('sys', 'base', ['sym'], stdin='string')), ('P2', Pgm('ref', 'P1', ['sym1'], stdin='program'))],
         runs=[(ph, 'run', Pgm('ref', 'P2', ['plain2']), False) for ph in PHASES])
@@ -1075,6 +1100,84 @@ def obligations(tier: str) -> List[Ob]:
                   bound='seeded oracle error: HARD_ERROR expected for a non-zero exit code in [assert] too', timeout=300,
                   expect=ob.REFUTE, real=REAL_K3 + REAL_K4, stubs=(STUB_SUBPROCESS, STUB_SANDBOX)))
     return obs
+
+
+# =============================================================================================== self-test
+
+def selftest(tier) -> int:
+    """Concrete validation of the stand-ins (no solver involved):
+    (1) the recorder against the REAL subprocess.call: a real child that dumps its argv / stdin / cwd must have
+        seen exactly what the recorder records for the same call;
+    (2) every K2 scenario text is accepted by the public route (real full execution incl. symbol validation and
+        pre/post-sandbox validation => PASS), so K2 - which resolves programs without the validation steps -
+        quantifies over valid programs only."""
+    import json
+    import os
+    import subprocess
+    import sys
+    from vsym import scratch
+    n = 0
+    # (1)
+    dump = 'import sys,os,json; sys.stdout.write(json.dumps([sys.argv[1:], sys.stdin.read(), os.getcwd()])); sys.exit(int(sys.argv[1]))'
+    work = scratch.new_dir('c10selftest')
+    try:
+        sub = os.path.join(work, 'a dir')
+        os.mkdir(sub)
+        cases = [
+            (['3', '', 'a b', "it's", '"q"', '-x', '$HOME', '*'], 'stdin text\nline 2', False),
+            (['0'], '', False),
+            (['255', '\\', 'tab\there', 'nl\nhere'], None, False),
+            ("7 'a  b'   \"c d\" e", 'x', True),
+        ]
+        for args, stdin_text, shell in cases:
+            for real in (True, False):
+                out_path = os.path.join(work, 'out')
+                in_path = os.path.join(work, 'in')
+                with open(in_path, 'w') as f:
+                    f.write(stdin_text or '')
+                cwd0 = os.getcwd()
+                os.chdir(sub)
+                try:
+                    with open(out_path, 'w') as f_out, open(in_path) as f_in:
+                        stdin = f_in if stdin_text is not None else subprocess.DEVNULL
+                        if shell:
+                            full = '"%s" -c "%s" %s' % (sys.executable, dump.replace('"', '\\"'), args)
+                        else:
+                            full = [sys.executable, '-c', dump] + args
+                        if real:
+                            code = subprocess.call(full, stdin=stdin, stdout=f_out, stderr=subprocess.DEVNULL, shell=shell)
+                            seen_by_child = None
+                        else:
+                            rec = L.Recorder(lambda c: L.Child(code=-1))
+                            rec.call(full, stdin=stdin, stdout=f_out, stderr=subprocess.DEVNULL, shell=shell)
+                            recorded = rec.calls[0]
+                finally:
+                    os.chdir(cwd0)
+                if real:
+                    with open(out_path) as f:
+                        seen_by_child = json.load(f)
+                    real_code, real_seen = code, seen_by_child
+            # what the real child saw must be what the recorder says it is given
+            import shlex
+            given_argv = shlex.split(recorded.args)[3:] if shell else recorded.args[3:]
+            if real_seen[0] != given_argv or real_seen[1] != (recorded.stdin_text or '') or \
+                    os.path.realpath(real_seen[2]) != os.path.realpath(recorded.cwd) or real_code != int(given_argv[0]):
+                raise AssertionError('recorder and real subprocess.call disagree: %r vs %r' % (real_seen, recorded))
+            n += 1
+    finally:
+        scratch.remove(work)
+    # (2)
+    samples = [('a', 'b c', 'd\n', "e'"), ('', '', '', '')]
+    for c in _k2_cases(tier):
+        for smp in samples:
+            text = c.text().replace('[setup]', '[setup]\n' + sp.DEF_G) + '[assert]\nexit-code == 0\n'
+            rec = L.Recorder(lambda call: L.Child())
+            run = L.run_case(text, rec, {('S%d' % i): L.string_symbol(v) for i, v in enumerate(smp)}, HDS_FILES)
+            if run.status != 'PASS':
+                raise AssertionError('K2 scenario %s is not accepted by the public route: %s %s' % (
+                    c.name, run.status, run.failure_text()[:500]))
+            n += 1
+    return n
 
 
 ASSUMPTIONS = [
